@@ -6,13 +6,28 @@ from .elfw import disassemble_blob, disassemble_object
 from .gen_bytes import build_object, code_chunks, expand, objects
 
 
+# the ways objdump itself lays the same disassembly out: all bytes of an instruction on its line (-w, --insn-width=N, so byte
+# columns of 8..15 bytes and no continuation lines), or no byte column at all (--no-show-raw-insn)
+LAYOUT_ASSUMPTION = 'listings without the byte column (--no-show-raw-insn) are generated with function symbols only: under an STT_OBJECT symbol objdump prints a data dump whose ASCII column is all that is left there (`   0:\\tret` for 72 65 74) and no reader can tell it from an instruction line'
+LAYOUT_RULE = 'in the layouts objdump itself offers: default (7 bytes per line + continuation lines), -w and --insn-width=8/11/15 (8-15 bytes on one line, no continuation lines), --no-show-raw-insn and -w --no-show-raw-insn (no byte column)'
+ALL_LAYOUTS = ["default", "default", "default", "default", "default", "wide", "insn-width-8", "insn-width-11", "insn-width-15", "no-raw", "no-raw", "wide-no-raw"]
+
+
 @st.composite
-def sources(draw, max_chunks=24):
+def sources(draw, max_chunks=24, layouts=("default",)):
     kind = draw(st.sampled_from(["blob64", "blob64", "blob64", "blob32", "object", "object", "blob16"]))
+    layout = draw(st.sampled_from(list(layouts))) if len(layouts) > 1 else layouts[0]
+    extra = {"layout": layout} if layout != "default" else {}
     if kind == "object":
-        return {"src": "object", "obj": draw(objects())}
+        obj = draw(objects())
+        if "no-raw" in layout:
+            # objdump dumps the bytes under an STT_OBJECT symbol as data (hex + ASCII column); without the byte column only the ASCII
+            # text is left (`   4:\t/`, `   0:\tret` for 72 65 74) and no reader can tell that from an instruction line: outside
+            # what the text of a listing determines, so column-less listings are generated with function symbols only
+            obj["symbols"] = [[s_[0], s_[1], s_[2], "func"] for s_ in obj["symbols"]]
+        return {"src": "object", "obj": obj, **extra}
     mode = {"blob64": "x86-64", "blob32": "i386", "blob16": "i8086"}[kind]
-    return {"src": "blob", "mode": mode, "chunks": draw(code_chunks(1, max_chunks))}
+    return {"src": "blob", "mode": mode, "chunks": draw(code_chunks(1, max_chunks)), **extra}
 
 
 def source_tag(case):
@@ -21,13 +36,17 @@ def source_tag(case):
     return "blob-" + case["mode"]
 
 
+def layout_tag(case):
+    return "layout=" + case.get("layout", "default")
+
+
 def listing_for(case, sections=None):
     """-> (returncode, listing text, path of the binary that was disassembled)"""
     sc = jasm_io.scratch()
     if case["src"] == "object":
         path = sc.write("obj.o", build_object(case["obj"]))
-        rc, out, err = disassemble_object(path, sections)
+        rc, out, err = disassemble_object(path, sections, layout=case.get("layout", "default"))
     else:
         path = sc.write("blob.bin", expand(case["chunks"]))
-        rc, out, err = disassemble_blob(path, case["mode"])
+        rc, out, err = disassemble_blob(path, case["mode"], layout=case.get("layout", "default"))
     return rc, out, path
